@@ -550,6 +550,8 @@ func (t *wal) TruncateLog(lastSafeOffset int64) (int64, error) { //nolint:revive
 					return InvalidOffset, err
 				}
 
+				t.lastAppendedOffset.Store(lastSafeOffset)
+				t.lastSyncedOffset.Store(lastSafeOffset)
 				err = segment.Close()
 				return lastSafeOffset, err
 			default:
